@@ -57,6 +57,26 @@ def gen_cases(seed, n):
             if rng.random() < 0.5:
                 ps.append({"t": "bgp", "tps": [[V("a"), V("c"), V("d")]]})
             q = {"distinct": False, "star": True, "proj": [], "from": [], "fromnamed": [], "group": [], "order": [], "limit": -1, "p": {"t": "join", "ps": ps}}
+        if i % 15 == 11:
+            # twin sub-SELECTs: same pattern and projection, different ORDER BY direction / LIMIT (the minimum-and-maximum idiom),
+            # combined by UNION or by a join: each must be evaluated with its own modifiers
+            quads = [x for x in quads if not (x[1] == G.P_VAL and x[3] == "")]
+            vals = rng.sample(G.INTS, 4)
+            quads += [(G.IRIS[k], G.P_VAL, vals[k], "") for k in range(4)]
+            quads = sorted(set(quads))
+            V, C = G.V, G.C
+
+            def twin(direction, limit):
+                return {"distinct": False, "star": False, "proj": [{"k": "VAR", "v": "a", "as": "a"}, {"k": "VAR", "v": "b", "as": "b"}], "from": [], "fromnamed": [],
+                        "group": [], "p": {"t": "join", "ps": [{"t": "bgp", "tps": [[V("a"), C(G.P_VAL), V("b")]]}]},
+                        "order": [{"v": "b", "d": direction}], "limit": limit}
+            kind = (i // 15) % 3
+            t1, t2 = [(twin("asc", 1), twin("desc", 1)), (twin("asc", 1), twin("asc", 3)), (twin("desc", 2), twin("asc", 2))][kind]
+            if (i // 45) % 2 == 0:
+                p = {"t": "join", "ps": [{"t": "union", "ps": [{"t": "join", "ps": [{"t": "sub", "q": t1}]}, {"t": "join", "ps": [{"t": "sub", "q": t2}]}]}]}
+            else:
+                p = {"t": "join", "ps": [{"t": "sub", "q": t1}, {"t": "sub", "q": t2}]}
+            q = {"distinct": False, "star": True, "proj": [], "from": [], "fromnamed": [], "group": [], "order": [], "limit": -1, "p": p}
         text = G.pr_select(q)
         # the dataset is the result of a history: some quads (sharing terms with the kept ones) are inserted and deleted again
         junk = []
